@@ -10,9 +10,12 @@ package main
 // Reload histories of ONE real frpc (client.Service) against a real frps through the recording relay.  The rig lives
 // across ops until the next rstart / reset:
 //
-//	rstart tls=<0|1> mux=<0|1> bt=<t|u> a=<pc> b=<pc>   start frps, relay, frpc with proxy a (tcp) and b (bt: tcp / udp; a
+//	rstart tls=<0|1> mux=<0|1> bt=<t|u> a=<pc> b=<pc> [fmt=<toml|yaml|json>]
+//	                                           start frps, relay, frpc with proxy a (tcp) and b (bt: tcp / udp; a
 //	                                           udp proxy needs 0.5 s after every registration, so most rigs use tcp)
-//	rload a=<pc> b=<pc>                        Service.UpdateAllConfigurer with freshly built configurers
+//	rload a=<pc> b=<pc>                        Service.UpdateAllConfigurer with freshly loaded configurers
+//	    every configuration (start and each reload) is WRITTEN as a frpc configuration file in the rig's format and read
+//	    by the real config.LoadClientConfig (parser + Complete), as `frpc` / `frpc reload` do
 //	rconn                                      every relay connection is cut; frpc logs in again (new Control / Manager)
 //	    pc = "-" (not configured) | e<0|1>c<0|1>l<0|1|2>m<0|1>o<0|1>
 //	         useEncryption, useCompression, bandwidthLimit (none / 1MB / 2MB), bandwidthLimitMode (client / server),
@@ -35,7 +38,7 @@ import (
 	"time"
 
 	"github.com/fatedier/frp/client"
-	"github.com/fatedier/frp/pkg/config/types"
+	"github.com/fatedier/frp/pkg/config"
 	v1 "github.com/fatedier/frp/pkg/config/v1"
 	"github.com/fatedier/frp/pkg/transport"
 )
@@ -145,6 +148,9 @@ type wireRig struct {
 	portB    int
 	runErr   chan error
 	cur      [2]wirePC
+	mux      bool
+	token    string
+	format   string
 }
 
 var wireRigCur *wireRig
@@ -165,60 +171,56 @@ func wireRClose() {
 	r.ubackend.Close()
 }
 
-func (r *wireRig) transportOf(t *v1.ProxyTransport, p wirePC) {
-	t.UseEncryption = p.enc
-	t.UseCompression = p.comp
-	switch p.limit {
-	case 1:
-		t.BandwidthLimit, _ = types.NewBandwidthQuantity("1MB")
-	case 2:
-		t.BandwidthLimit, _ = types.NewBandwidthQuantity("2MB")
-	}
-	if p.srvMode {
-		t.BandwidthLimitMode = types.BandwidthLimitModeServer
-	}
-}
-
-// freshly allocated configurers, as a reload from a re-read file produces them
-func (r *wireRig) build(ps [2]wirePC) []v1.ProxyConfigurer {
-	var out []v1.ProxyConfigurer
-	if ps[0].present {
-		c := &v1.TCPProxyConfig{}
-		c.Name, c.Type = "c05ra", "tcp"
-		c.LocalIP, c.LocalPort = "127.0.0.1", r.bport
-		c.RemotePort = r.portA
-		r.transportOf(&c.Transport, ps[0])
-		if ps[0].ot {
-			c.Metadatas = map[string]string{"o": "1"}
+// the configuration file an operator would write for these two proxies: rendered in the rig's file format and read
+// back by the real loader (parser, Complete) — what `frpc` does at start and `frpc reload` does on every reload
+func (r *wireRig) tree(ps [2]wirePC) []kv {
+	one := func(name, typ string, localPort, remotePort int, p wirePC) []kv {
+		t := []kv{{"name", name}, {"type", typ}, {"localIP", "127.0.0.1"}, {"localPort", localPort}, {"remotePort", remotePort}}
+		tr := []kv{{"useEncryption", p.enc}, {"useCompression", p.comp}}
+		switch p.limit {
+		case 1:
+			tr = append(tr, kv{"bandwidthLimit", "1MB"})
+		case 2:
+			tr = append(tr, kv{"bandwidthLimit", "2MB"})
 		}
-		c.Complete(r.user)
-		out = append(out, c)
+		if p.srvMode {
+			tr = append(tr, kv{"bandwidthLimitMode", "server"})
+		}
+		t = append(t, kv{"transport", tr})
+		if p.ot {
+			t = append(t, kv{"metadatas", map[string]string{"o": "1"}})
+		}
+		return t
+	}
+	var proxies [][]kv
+	if ps[0].present {
+		proxies = append(proxies, one("c05ra", "tcp", r.bport, r.portA, ps[0]))
 	}
 	if ps[1].present && !r.bUDP {
-		c := &v1.TCPProxyConfig{}
-		c.Name, c.Type = "c05rb", "tcp"
-		c.LocalIP, c.LocalPort = "127.0.0.1", r.bport
-		c.RemotePort = r.portB
-		r.transportOf(&c.Transport, ps[1])
-		if ps[1].ot {
-			c.Metadatas = map[string]string{"o": "1"}
-		}
-		c.Complete(r.user)
-		out = append(out, c)
+		proxies = append(proxies, one("c05rb", "tcp", r.bport, r.portB, ps[1]))
 	}
 	if ps[1].present && r.bUDP {
-		c := &v1.UDPProxyConfig{}
-		c.Name, c.Type = "c05rb", "udp"
-		c.LocalIP, c.LocalPort = "127.0.0.1", r.ubackend.LocalAddr().(*net.UDPAddr).Port
-		c.RemotePort = r.portB
-		r.transportOf(&c.Transport, ps[1])
-		if ps[1].ot {
-			c.Metadatas = map[string]string{"o": "1"}
-		}
-		c.Complete(r.user)
-		out = append(out, c)
+		proxies = append(proxies, one("c05rb", "udp", r.ubackend.LocalAddr().(*net.UDPAddr).Port, r.portB, ps[1]))
 	}
-	return out
+	return wcClientTree(r.relay.port(), r.user, r.token, r.tlsOn, r.mux, proxies, nil)
+}
+
+func (r *wireRig) load(ps [2]wirePC) (*v1.ClientCommonConfig, []v1.ProxyConfigurer) {
+	format := r.format
+	if format == "" {
+		format = "toml"
+	}
+	common, pcs, _, _, err := config.LoadClientConfig(wcWriteFile(wcGetLocal(), renderDoc(r.tree(ps), format), format), true)
+	if err != nil {
+		panic(fmt.Sprint("reload rig: the written configuration does not load: ", err))
+	}
+	return common, pcs
+}
+
+// freshly loaded configurers, as a reload from a re-read file produces them
+func (r *wireRig) build(ps [2]wirePC) []v1.ProxyConfigurer {
+	_, pcs := r.load(ps)
+	return pcs
 }
 
 // wait (event driven, at most 2 s) until the status API shows every configured proxy running with exactly the given
@@ -367,6 +369,7 @@ func (r *wireRig) observe() string {
 
 func wireRStart(kv map[string]string) string {
 	wireRClose()
+	wcClose()
 	pa, ok1 := wireParsePC(kv["a"])
 	pb, ok2 := wireParsePC(kv["b"])
 	if !ok1 || !ok2 {
@@ -400,19 +403,9 @@ func wireRStart(kv map[string]string) string {
 	r.cur = [2]wirePC{pa, pb}
 	wireRigCur = r
 
-	ccfg := &v1.ClientCommonConfig{}
-	ccfg.ServerAddr = "127.0.0.1"
-	ccfg.ServerPort = r.relay.port()
-	ccfg.Auth.Token = token
-	ccfg.User = r.user
-	dis := true
-	ccfg.Transport.TLS.Enable = &tlsOn
-	ccfg.Transport.TLS.DisableCustomTLSFirstByte = &dis
-	ccfg.Transport.TCPMux = &mux
-	tr := true
-	ccfg.LoginFailExit = &tr
-	ccfg.Complete()
-	cli, err := client.NewService(client.ServiceOptions{Common: ccfg, ProxyCfgs: r.build(r.cur)})
+	r.mux, r.token, r.format = mux, token, kv["fmt"]
+	ccfg, pcs := r.load(r.cur)
+	cli, err := client.NewService(client.ServiceOptions{Common: ccfg, ProxyCfgs: pcs})
 	if err != nil {
 		panic(err)
 	}
@@ -488,7 +481,8 @@ func wireGenReloads(rng *rand.Rand, histories int, emit func(string)) {
 		if h%3 == 1 {
 			bt = "u"
 		}
-		emit(fmt.Sprintf("rstart tls=%d mux=%d bt=%s a=%s b=%s", wireBit(tlsOn), rng.Intn(2), bt, ps[0], ps[1]))
+		emit(fmt.Sprintf("rstart tls=%d mux=%d bt=%s a=%s b=%s fmt=%s", wireBit(tlsOn), rng.Intn(2), bt, ps[0], ps[1],
+			[]string{"toml", "yaml", "json"}[h%3]))
 		steps := 3 + rng.Intn(3)
 		for s := 0; s < steps; s++ {
 			i := rng.Intn(2)
